@@ -342,6 +342,9 @@ func init() {
 		if args[1].(iface).t == nil {
 			goPanic("sync/atomic: store of nil value into Value")
 		}
+		if old, ok := s[0].(iface); ok && old.t != nil && !types.Identical(old.t, args[1].(iface).t) {
+			goPanic("sync/atomic: store of inconsistently typed value into Value")
+		}
 		s[0] = args[1]
 		if E.traceCalls {
 			E.traceLog = append(E.traceLog, traceEvent{fn: "atomic.Value.Store"})
